@@ -14,7 +14,7 @@
    holds every subscription and timer it opened.  Groups/windows handed to the
    subscriber (ref-counted) are treated in C18/C19. *)
 From RxVerif Require Import Base.Prelude Ops.Machine Ops.MachineFacts Ops.Multi Ops.MultiFacts
-  Ops.ReleaseFacts Ops.Lift.
+  Ops.ReleaseFacts Ops.Lift Ops.RunTailFacts Ops.Combinators.
 
 Theorem C02_released_after_terminal : forall A B (m : machine A B) ins,
   ended (emitted (fst (run m ins))) = true ->
@@ -45,3 +45,37 @@ Theorem C02_grammar_multi : forall A B (m : machine A B) ins,
   wellformed (emitted (fst (run m ins))) = true.
 Proof. intros A B m ins. exact (proj1 (run_good m ins)). Qed.
 Print Assumptions C02_grammar_multi.
+
+(* "at that instant", read off the observable trace: wherever a terminal
+   notification stands in the trace of a run, everything behind it is an
+   unsubscribe or a timer cancellation carrying the terminal's own step tag --
+   no notification, subscription, timer or side effect follows it.  (Entries of
+   the same step that PRECEDE the terminal -- elements and commands of the
+   handler that decided to terminate -- are not restricted.) *)
+Theorem C02_nothing_after_the_terminal_step :
+  forall A B (m : machine A B) ins pre k t post,
+    fst (run m ins) = pre ++ (k, OEmit t) :: post -> is_terminal t = true ->
+    Forall (fun x => fst x = k /\ exists j, snd x = OUnsub j \/ snd x = OCancel j) post.
+Proof. exact @run_closed. Qed.
+Print Assumptions C02_nothing_after_the_terminal_step.
+
+(* no entry of the trace belongs to a later step than the terminal notification *)
+Theorem C02_no_step_after_the_terminal_step :
+  forall A B (m : machine A B) ins k t k' o,
+    In (k, OEmit t) (fst (run m ins)) -> is_terminal t = true ->
+    In (k', o) (fst (run m ins)) -> (k' <= k)%nat.
+Proof. exact @run_nothing_later. Qed.
+Print Assumptions C02_no_step_after_the_terminal_step.
+
+(* witnesses: a run that ends (the hypothesis [ended ...] of the theorems above),
+   with the terminal followed by the two unsubscribes of its own step, and a
+   later source element that adds nothing *)
+Example C02_witness_terminal_then_releases :
+  fst (run (@x_take_until Z) [(0, ISrc 0%nat (Next 5)); (1, ISrc 1%nat (Next 9)); (2, ISrc 0%nat (Next 4))])
+  = [(0%nat, OSub 0%nat); (0%nat, OSub 1%nat); (1%nat, OEmit (Next 5))]
+    ++ (2%nat, OEmit Done) :: [(2%nat, OUnsub 0%nat); (2%nat, OUnsub 1%nat)].
+Proof. vm_compute. reflexivity. Qed.
+Example C02_witness_ended :
+  ended (emitted (fst (run (@x_take_until Z)
+    [(0, ISrc 0%nat (Next 5)); (1, ISrc 1%nat (Next 9)); (2, ISrc 0%nat (Next 4))]))) = true.
+Proof. vm_compute. reflexivity. Qed.
